@@ -10,6 +10,8 @@ Line-protocol driver for C02.  All arguments are ints:
   `R` → write, re-read with the reader model of C03, judge under the written order: `ok iso <text>` | `ok DIFF <what> <text>` | …
   `C` → structural checkers on the writer's intermediate results (spanning tree, closures, parentheses, numbers)
   `H` → closure-number allocator alone: `H n (k cycle*)*` → numbers per atom | `err crash:IndexError`
+  `D` → the DFS result of every round (`start;visited;edges;tokens`, dict orders kept) — compared with the locals of the real
+        `_smiles` frame captured after its DFS loop
 -/
 open ChythonModel.Py ChythonModel.Model ChythonModel.Model.SmilesWriter ChythonModel.Model.C02RT
 
@@ -92,6 +94,13 @@ def showWTok : WTok → String
   | .rpar => ")"
   | .dot => "."
 
+/-- DFS result of every round: `start;visited;edges;tokens` in dict (insertion) order -/
+def showDfs (rs : List Round) : String :=
+  " / ".intercalate (rs.map fun r =>
+    s!"{r.start};" ++ ",".intercalate (r.visited.map toString) ++ ";" ++
+    " ".intercalate (r.edges.map fun (p, cs) => s!"{p}>" ++ ",".intercalate (cs.map toString)) ++ ";" ++
+    " ".intercalate (r.tokens.map fun (a, l) => s!"{a}>" ++ ",".intercalate (l.map fun (b, c) => s!"{b}:{c}")))
+
 def parseH : Nat → List Int → Option (List (List Nat))
   | 0, [] => some []
   | 0, _ => none
@@ -144,6 +153,10 @@ def handle (line : String) : String :=
           | .error e => "err " ++ e.name
         else if op == "R" then roundTrip m env opts
         else if op == "C" then checkRun m env opts
+        else if op == "D" then
+          match smilesRounds m env opts with
+          | .ok (rs, _) => "ok " ++ showDfs rs
+          | .error e => "err " ++ e.name
         else "bad-op"
   | [] => "bad-request"
 
